@@ -5,7 +5,7 @@ def ceil8(w):
 
 class P:
     def __init__(self, name, W, H, color='bw', three=False, quick=False, extras=(), family='ssd',
-                 busy_low=None, frame=None, partial=True, feats=('v3',)):
+                 busy_low=None, frame=None, partial=True, feats=('v3',), big=False):
         self.name, self.W, self.H, self.color = name, W, H, color
         self.three, self.quick, self.extras = three, quick, list(extras)
         self.family = family
@@ -14,6 +14,8 @@ class P:
         self.frame = frame if frame is not None else ceil8(W) * H
         self.partial = partial
         self.feats = feats
+        # big: not a WaveshareDisplay trait driver; its scripts come from gen_big.py, never from gen.py
+        self.big = big
     @property
     def colors(self):
         return {'bw': ['black', 'white'], 'tri': ['black', 'white', 'chromatic'],
@@ -53,4 +55,8 @@ PANELS = [
     P('epd7in5_v2', 800, 480, family='uc'),
     P('epd7in5b_v2', 800, 480, color='tri', three=True, extras=['update_partial_frame2'], family='uc'),
 ]
-BY_NAME = {p.name: p for p in PANELS}
+# The 12.48in driver has its own API (tools/gen_big.py, harness/src/big.rs, coq/Big/Model.v).  It is
+# deliberately NOT in PANELS, so that code iterating over PANELS keeps seeing the 27 trait drivers only.
+BIG = P('epd12in48b_v2', 1304, 984, family='uc', big=True)
+ALL_PANELS = PANELS + [BIG]
+BY_NAME = {p.name: p for p in ALL_PANELS}
